@@ -101,13 +101,24 @@ def attribute_hygiene(prog, chk):
     # presentation attributes: the literal list
     pta = prog.body("svgdx::text::process_text_attr")
     arrays = _promoted_str_arrays(pta)
+    # ... or a named table (`const TEXT_ATTRS: [&str; N] = [..]`) the function - or a helper spliced into it - refers to
+    consts = {h_["path"]: h_ for h_ in prog.hir.values() if isinstance(h_, dict) and h_.get("kind") in ("Const", "Static") and isinstance(h_.get("body"), dict)}
+    hp = prog.hir.get(pta.id)
+    for n_ in (hirq.exprs(hp["body"], "Path") if hp else ()):
+        cp_ = (n_.get("res") or {}).get("path", "")
+        if cp_ in consts:
+            vals = [hirq.lit_str(x) for x in hirq.exprs(consts[cp_]["body"], "Lit")]
+            vals = [v for v in vals if isinstance(v, str)]
+            if vals and vals not in arrays:
+                arrays.append(vals)
     pres = [a for a in arrays if set(PRESENTATION) <= set(a)]
     chk.ob(bool(pres), "A14.text-presentation", "process_text_attr", pta.where(), f"the {len(PRESENTATION)} text presentation attributes are moved from the shape to the text element", f"the moved presentation-attribute list lacks {sorted(set(PRESENTATION) - set(max(arrays, key=len) if arrays else []))}")
     extra = sorted(set(pres[0]) - set(PRESENTATION)) if pres else []
     chk.ob(not extra, "A14.text-presentation", "process_text_attr:only-text-properties", pta.where(), "only properties that apply to text content alone are moved from the shape to its text element", f"the attributes moved from the shape to its text element now include {extra}: these also apply to the shape itself (\"the shape itself is emitted unchanged apart from the text-specific attributes\"), so a shape with text loses its own {extra[0] if extra else ''}")
     # d-text-* classes are removed from the shape
-    sw = [1 for (bb, t, c) in pta.call_sites(lambda c: c.path.endswith("<impl str>::starts_with")) if _lit(pta, t, 1) == "d-text-"]
-    pc = pta.call_sites(R.path_is(EL + "::pop_class"))
+    scope_ = [pta] + list(prog.closures_of(pta))  # the test may sit in a filter closure
+    sw = [1 for bd in scope_ for (bb, t, c) in bd.call_sites(lambda c: c.path.endswith("<impl str>::starts_with")) if _lit(bd, t, 1) == "d-text-"]
+    pc = [x for bd in scope_ for x in bd.call_sites(R.path_is(EL + "::pop_class"))]
     chk.ob(bool(sw) and bool(pc), "A14.text-classes", "process_text_attr", pta.where(), "`d-text-*` classes are removed from the shape (and carried by the text element)", "d-text-* classes are no longer removed from the shape")
     # author-supplied text-loc is never overwritten: writes of the key use set_default_attr only
     bad = []
@@ -217,6 +228,16 @@ def tspans(prog, chk):
                 if some_t:
                     r = pta.reach(some_t, avoid=pushes)
                     ok = h not in r and nx[0][0] not in r
+    if not ok:
+        # the same thing written with adapters: the lines are mapped one to one onto elements (`lines.into_iter()
+        # .enumerate().map(|(i, line)| ..tspan..).collect()`), with nothing in the chain that drops or merges items
+        DROPPING = ("Filter", "FilterMap", "Skip", "Take", "StepBy", "SkipWhile", "TakeWhile", "MapWhile", "Flatten", "FlatMap", "Dedup", "Scan", "Peekable", "Fuse")
+        for (bb, t, c) in pta.call_sites(lambda c: c.decl_path == "std::iter::Iterator::map" and "&str" in c.self_ty and "::map::<svgdx::element::SvgElement," in c.inst):
+            chain_ok = not any(("::" + d + "<") in c.self_ty for d in DROPPING)
+            sinks = [c2 for (b2, t2, c2) in pta.call_sites(lambda c2: c2.path.split("::")[-1] in ("collect", "extend", "for_each", "from_iter") and "svgdx::element::SvgElement" in c2.inst and "Map<" in (c2.self_ty + c2.inst))]
+            sinks_ok = bool(sinks) and not any(("::" + d + "<") in (c2.self_ty + c2.inst) for c2 in sinks for d in DROPPING)
+            if chain_ok and sinks_ok:
+                ok = True
     chk.ob(ok, "A13.tspan-per-line", "process_text_attr", pta.where(), "every cycle of the line loop pushes one <tspan> element", "a line of multi-line text can be skipped without a <tspan>")
 
 
